@@ -57,6 +57,9 @@ def main():
     if patch != "none":
         rc, o = sh(f"git apply {os.path.abspath(patch)}", cwd=wt)
         if rc != 0:
+            # made against an earlier HEAD of /repo: merge it (fails only where it overlaps a later commit)
+            rc, o = sh(f"git apply -3 {os.path.abspath(patch)} && git reset -q", cwd=wt)
+        if rc != 0:
             print("HARNESS-ERROR patch does not apply:", o[:400])
             return 2
     res, worst = {}, 0
